@@ -96,6 +96,8 @@ class World:
         self.apps = []
         self.foreign = [dict() for _ in range(case['napps'])]
         self.cfg = list(case.get('cfg') or ['default'] * case['napps'])
+        if case['default'] >= 0 and self.cfg[case['default']] == 'domain':
+            self.cfg[case['default']] = 'default'       # the module-level default app outlives the case: it never gets the mirrored /blog routes
         for i in range(case['napps']):
             existing = ombott.app if case['default'] == i else None
             # 'default': the stock configuration (its error objects are the process-wide ones every default-config application shares);
